@@ -17,10 +17,18 @@
   termination of the `while y < …` loops when `y + offset` rounds back to `y` (the model has
   fuel; the driver prints `fuel` if it runs out — never seen on generated inputs).
 
-  Defect kept visible: `hatch` unwraps `events.edges.first()`; a path without edges panics
-  (`empty_path_panics_witness`, reproduced on the implementation by the harness, class
-  `empty-path-unwrap`).  For every path with at least one edge `hatch` returns
-  (`nonempty_no_panic`), which is the part of the property's last clause that holds.
+  History.  Two defects were found through this check and repaired in /repo; the model mirrors the
+  repaired code and the former witnesses are kept here as comments:
+  * 9b281594 `fix: Hatcher produces no output for a path without edges instead of panicking`.
+    Before: `hatch` took `events.edges.first().unwrap()` unguarded; the model returned `none`
+    (= panic) and `empty_path_panics_witness` proved `hatchPath o nan B fuel [] b0 = none` and
+    `hatchPath … [.begin ⟨0,0⟩, .close] b0 = none` (`Path::new()`, `M 0 0 Z`; harness class
+    `empty-path-unwrap`).  Now: `hatch_total`, `empty_path_no_output`.
+  * 6b2eb1e7 `fix: HatchesToDots divides by the segment's u-extent instead of normalizing`.
+    Before: `ab = (b.position − a.position).normalize()`; a segment with `a.u < b.u` whose ends
+    round to one `f32` position gave `0/0` and dots at `(NaN, NaN)` (corpus/C20/dot-nan-position,
+    class `zero-length-segment-normalize`; rounding only — the field theorem needed `sqrt` and
+    `c² + s² = 1`).  Now: `dot_on_segment` needs neither, and `dot_position_between`.
 -/
 import LyonVerif.Model.Algo.Hatch
 import LyonVerif.Lemmas.Field
@@ -216,6 +224,24 @@ theorem segment_ends (cfg : Cfg K) (B : Builder σ K) (fuel : Nat) (edges : List
   obtain ⟨_, h2, h3⟩ := lineLoop_ends cfg r.y r.idx r.active false _ _ s hs
   exact ⟨key _ (houtside _ _ _ s hs), key _ h2, h3⟩
 
+/-- **segment_left_right.**  `a` is the left end point: for every emitted segment
+`prev_x ≤ x`, hence `a.u ≤ b.u` (the active list is sorted by crossing abscissa when the
+`inside` flag is toggled along it). -/
+theorem segment_left_right (cfg : Cfg K) (B : Builder σ K) (fuel : Nat) (edges : List (Seg K))
+    (b0 : σ) (hsorted : edges.Pairwise (fun e f => e.a.y ≤ f.a.y)) (st : St σ K)
+    (h : hatch cfg B fuel edges b0 = some st) (r : Row K) (hr : r ∈ st.rows)
+    (s : HSeg K) (hs : s ∈ r.segs) : s.xa ≤ s.xb ∧ s.ua ≤ s.ub := by
+  have hri := hatch_rows cfg B fuel edges b0 hsorted st h r hr
+  have hs' := hs
+  rw [hri.segs_eq] at hs'
+  have hx := lineLoop_ordered cfg r.y r.idx r.active false _ _ hri.sorted (fun hi => by simp at hi) s hs'
+  have hm := (segment_ends cfg B fuel edges b0 hsorted st h r hr s hs).2.2
+  refine ⟨hx, ?_⟩
+  have h1 : s.ua = s.xa - cfg.uvo.x := by rw [hm]; rfl
+  have h2 : s.ub = s.xb - cfg.uvo.x := by rw [hm]; rfl
+  rw [h1, h2]
+  exact sub_le_sub_right hx _
+
 /-- **horizontal_edge_skipped.**  A horizontal edge has the finite sort key `from.x`
 (`solve_t_for_y` returns 0 when `dy = 0`) and is never among the counted edges of any row, so it
 never flips `inside`. -/
@@ -308,14 +334,14 @@ theorem rot_inverse (c s : K) (hcs : c * c + s * s = 1) (p : P K) :
 
 /-- **dots_in_segment.**  Every dot `HatchesToDots::add_segment` derives from a hatch segment lies
 between the segment's ends in the `u` coordinate (`a.u ≤ u < b.u`), carries the segment's `v` and
-row, and sits at `a.position + normalize(b.position − a.position) · (u − a.u)`.
+row, and sits at `a.position + ((b.position − a.position) / (b.u − a.u)) · (u − a.u)`.
 Hypotheses: the pattern's first column offset is non-negative, an alignment is positive, and
 `fmod` has the sign / magnitude laws of C's `fmod`. -/
 theorem dots_in_segment (hf : FmodLaws K) (pat : DotPat K) (fuel : Nat) (s : HSeg K) (col : Nat)
     (h0 : 0 ≤ pat.firstCol s.row) (hal : ∀ d ∈ pat.align s.row, 0 < d)
     (d : Dot K) (hd : d ∈ dotsOfSeg pat fuel s col) :
     s.ua ≤ d.u ∧ d.u < s.ub ∧ d.v = s.v ∧ d.row = s.row ∧ col ≤ d.col ∧
-    d.pos = s.pa + (normalize (s.pb - s.pa)).smul (d.u - s.ua) := by
+    d.pos = s.pa + ((s.pb - s.pa).sdiv (s.ub - s.ua)).smul (d.u - s.ua) := by
   unfold dotsOfSeg at hd
   obtain ⟨u, h1, h2, h3, h4, h5, h6, h7⟩ := dotLoop_mem pat s _ fuel col _ d hd
   have hu : 0 ≤ u := le_trans (alignU_nonneg hf _ _ _ h0 hal) h1
@@ -326,11 +352,28 @@ theorem dots_in_segment (hf : FmodLaws K) (pat : DotPat K) (fuel : Nat) (s : HSe
     have : s.ua + u - s.ua = u := by ring
     rw [this]
 
-/-- … and, for a segment produced by `hatch_line` (`mkSeg`) with a proper rotation and `sqrt`
-satisfying `sqrt(z²) = z` for `z ≥ 0`, that position is the point of the row line whose
-rotated-frame abscissa `x` satisfies `prev_x ≤ x < x_right`: the dot lies on the hatch segment. -/
-theorem dot_on_segment (hf : FmodLaws K) (hsqrt : ∀ z : K, 0 ≤ z → Transc.sqrt (z * z) = z)
-    (cfg : Cfg K) (hcs : cfg.ci * cfg.ci + cfg.si * cfg.si = 1)
+/-- **dot_position_between.**  The position of every dot is the convex combination
+`a.position + t · (b.position − a.position)` of the segment's end points with
+`t = (u − a.u)/(b.u − a.u)` and `0 ≤ t < 1`: the denominator is positive for every segment that
+receives a dot, so no `0/0` can arise (what the former `normalize()` did on segments whose ends
+round to one position). -/
+theorem dot_position_between (hf : FmodLaws K) (pat : DotPat K) (fuel : Nat) (s : HSeg K) (col : Nat)
+    (h0 : 0 ≤ pat.firstCol s.row) (hal : ∀ d ∈ pat.align s.row, 0 < d)
+    (d : Dot K) (hd : d ∈ dotsOfSeg pat fuel s col) :
+    0 < s.ub - s.ua ∧ 0 ≤ (d.u - s.ua) / (s.ub - s.ua) ∧ (d.u - s.ua) / (s.ub - s.ua) < 1 ∧
+    d.pos = s.pa + (s.pb - s.pa).smul ((d.u - s.ua) / (s.ub - s.ua)) := by
+  obtain ⟨h1, h2, _, _, _, h6⟩ := dots_in_segment hf pat fuel s col h0 hal d hd
+  have hpos : 0 < s.ub - s.ua := by linarith
+  have hne : s.ub - s.ua ≠ 0 := ne_of_gt hpos
+  refine ⟨hpos, div_nonneg (by linarith) (le_of_lt hpos), (div_lt_one hpos).mpr (by linarith), ?_⟩
+  rw [h6]
+  apply P.ext' <;> simp only [P.sdiv, P.smul, P.add_def, P.sub_def] <;> field_simp
+
+/-- **dot_on_segment.**  For a segment produced by `hatch_line` (`mkSeg`) that position is the
+point of the row line whose rotated-frame abscissa `w` satisfies `prev_x ≤ w < x`: the dot lies on
+the hatch segment, on the row, at `u = w − uv_origin'.x`.  (No hypothesis on the rotation or on
+`sqrt`: `b.position − a.position = (x − prev_x)·(c, s)` and `b.u − a.u = x − prev_x`.) -/
+theorem dot_on_segment (hf : FmodLaws K) (cfg : Cfg K)
     (y : K) (row : Nat) (px x : K) (pt t : P K)
     (pat : DotPat K) (fuel : Nat) (col : Nat)
     (h0 : 0 ≤ pat.firstCol row) (hal : ∀ d ∈ pat.align row, 0 < d)
@@ -340,80 +383,62 @@ theorem dot_on_segment (hf : FmodLaws K) (hsqrt : ∀ z : K, 0 ≤ z → Transc.
   simp only [mkSeg] at h1 h2 h6
   refine ⟨d.u + cfg.uvo.x, by linarith, by linarith, ?_, by ring⟩
   have hlt : px < x := by linarith
-  have hpos : (0:K) < x - px := sub_pos.mpr hlt
-  have hlen : Transc.sqrt (((x * cfg.ci - y * cfg.si) - (px * cfg.ci - y * cfg.si)) *
-      ((x * cfg.ci - y * cfg.si) - (px * cfg.ci - y * cfg.si)) +
-      ((y * cfg.ci + x * cfg.si) - (y * cfg.ci + px * cfg.si)) *
-      ((y * cfg.ci + x * cfg.si) - (y * cfg.ci + px * cfg.si))) = x - px := by
-    rw [← hsqrt (x - px) (le_of_lt hpos)]
-    congr 1
-    linear_combination ((x - px) * (x - px)) * hcs
+  have hne : x - cfg.uvo.x - (px - cfg.uvo.x) ≠ 0 := by
+    have : x - cfg.uvo.x - (px - cfg.uvo.x) = x - px := by ring
+    rw [this]; exact ne_of_gt (sub_pos.mpr hlt)
   rw [h6]
-  simp only [normalize, rot, P.sdiv, P.smul, P.add_def, P.sub_def]
-  rw [hlen]
-  have hne : x - px ≠ 0 := ne_of_gt hpos
+  simp only [rot, P.sdiv, P.smul, P.add_def, P.sub_def]
   apply P.ext' <;> simp only <;> field_simp <;> ring
 
 /-! ### The empty path -/
 
-/-- **empty_path_panics_witness.**  `hatch` on an edge list without edges takes the `unwrap()` of
-`first()` of an empty list: the model's outcome is `none` (= panic).  An empty path, or a path
-whose edges are all zero-length (`M 0 0 Z`), gives such an edge list.  The property demands "no
-output and no panic": it fails here (finding `C20-empty-path-unwrap`). -/
-theorem empty_path_panics_witness (o : Options K) (nan : P K) (B : Builder σ K) (fuel : Nat) (b0 : σ) :
-    hatchPath o nan B fuel [] b0 = none ∧
-    hatchPath o nan B fuel [.begin ⟨0, 0⟩, .close] b0 = none := by
+/-- **hatch_total.**  `hatch` returns for every edge list: the only partial operation,
+`events.edges.first().unwrap()`, sits behind `if events.edges.is_empty() { return; }`
+(model: `none` = the unwrap of `None`). -/
+theorem hatch_total (cfg : Cfg K) (B : Builder σ K) (fuel : Nat) (edges : List (Seg K)) (b0 : σ) :
+    (hatch cfg B fuel edges b0).isSome = true := by
+  cases edges with
+  | nil => rw [hatch_nil]; rfl
+  | cons e0 es => rw [hatch_cons]; rfl
+
+/-- **empty_path_no_output.**  On an edge list without edges `hatch` returns without a single
+builder call: the builder state is the initial one, no offset was asked for, no row hatched.
+An empty path and a path whose edges are all zero-length (`M 0 0 Z`) give such an edge list. -/
+theorem empty_path_no_output (cfg : Cfg K) (B : Builder σ K) (fuel : Nat) (b0 : σ) :
+    ∃ st, hatch cfg B fuel [] b0 = some st ∧ st.b = b0 ∧ st.offs = [] ∧ st.rows = [] :=
+  ⟨emptySt b0, rfl, rfl, rfl, rfl⟩
+
+/-- … through `hatch_path`, for the empty event stream and for a single-point sub-path -/
+theorem empty_path_no_output_path (o : Options K) (nan : P K) (B : Builder σ K) (fuel : Nat) (b0 : σ) :
+    hatchPath o nan B fuel [] b0 = some (emptySt b0) ∧
+    hatchPath o nan B fuel [.begin ⟨0, 0⟩, .close] b0 = some (emptySt b0) := by
   constructor
   · rfl
   · have hbeq : ((⟨0, 0⟩ : P K) == (⟨0, 0⟩ : P K)) = true := by
       show P.beq _ _ = true
       simp [P.beq, sc_beq]
-    simp [hatchPath, buildEvents, EB.step, addEdge, hbeq, isort, hatch]
+    simp [hatchPath, buildEvents, EB.step, addEdge, hbeq, isort, hatch_nil]
 
-/-- the part of the last clause that holds: on any edge list with at least one edge `hatch`
-returns (no `unwrap` on `None`), whatever the builder does -/
-theorem nonempty_no_panic_partial (cfg : Cfg K) (B : Builder σ K) (fuel : Nat) (e0 : Seg K)
-    (es : List (Seg K)) (b0 : σ) : (hatch cfg B fuel (e0 :: es) b0).isSome = true := by
-  simp [hatch]
-
-/-- and a path without edges is the only way to reach the `unwrap` -/
-theorem panics_iff_no_edges (cfg : Cfg K) (B : Builder σ K) (fuel : Nat) (edges : List (Seg K))
-    (b0 : σ) : hatch cfg B fuel edges b0 = none ↔ edges = [] := by
-  cases edges <;> simp [hatch]
+/-- conversely, the builder is called (at least `next_offset(0)`) whenever there is an edge -/
+theorem nonempty_calls_builder (cfg : Cfg K) (B : Builder σ K) (fuel : Nat) (e0 : Seg K)
+    (es : List (Seg K)) (b0 : σ) (st : St σ K) (h : hatch cfg B fuel (e0 :: es) b0 = some st) :
+    st.offs ≠ [] := by
+  have := (hatch_off cfg B fuel e0 es b0 st h).len
+  intro hnil
+  simp [hnil] at this
 
 /-! ### Non-vacuity: concrete instances of the hypotheses (over `ℚ`)
 
-`Transc ℚ` with an exact `sqrt` on squares and a `fmod` that is exact on `[0, m)`; the other
-functions are not used by the statements below. -/
+`Transc ℚ` with a `fmod` that is exact on `[0, m)`; the other functions are not used by the
+statements below. -/
 
 section Examples
 
-open Classical in
-noncomputable def exSqrt (q : ℚ) : ℚ :=
-  if h : ∃ r : ℚ, 0 ≤ r ∧ r * r = q then Classical.choose h else 0
-
 noncomputable instance exTransc : Transc ℚ :=
-  { sqrt := exSqrt, cbrt := id, sin := id, cos := id, tan := id, acos := id, atan2 := fun a _ => a,
+  { sqrt := id, cbrt := id, sin := id, cos := id, tan := id, acos := id, atan2 := fun a _ => a,
     pow := fun a _ => a, log2 := id, ln := id, floor := id, ceil := id, toNat := fun _ => 0,
     fmod := fun a m => if 0 ≤ a ∧ a < m then a else 0,
     eps := 0, pi := 3, isNaN := fun _ => false, isFinite := fun _ => true }
-
-/-- the `sqrt` law used by `dot_on_segment` is satisfiable -/
-example : ∀ z : ℚ, 0 ≤ z → Transc.sqrt (z * z) = z := by
-  intro z hz
-  show exSqrt (z * z) = z
-  unfold exSqrt
-  have hex : ∃ r : ℚ, 0 ≤ r ∧ r * r = z * z := ⟨z, hz, rfl⟩
-  split
-  · rename_i h
-    obtain ⟨h1, h2⟩ := Classical.choose_spec h
-    rcases mul_self_eq_mul_self_iff.mp h2 with h' | h'
-    · exact h'
-    · have : Classical.choose h = 0 := by linarith
-      have hz0 : z = 0 := by linarith
-      rw [this, hz0]
-  · rename_i h
-    exact absurd hex h
 
 /-- the `fmod` laws used by the dot theorems are satisfiable -/
 theorem exFmodLaws : FmodLaws ℚ := by
@@ -435,7 +460,7 @@ noncomputable def exCfg : Cfg ℚ := { ci := 1, si := 0, uvo := ⟨0, 0⟩, ct :
 noncomputable def exEdges : List (Seg ℚ) := [⟨⟨0, 0⟩, ⟨0, 2⟩⟩, ⟨⟨2, 0⟩, ⟨2, 2⟩⟩]
 
 /-- hypotheses of `active_is_spanning`, `row_segments`, `row_is_evenodd(_closed)`, `segment_ends`,
-`horizontal_edge_skipped`, `rows_at_offsets`: a sorted edge list on which `hatch` with a regular
+`segment_left_right`, `horizontal_edge_skipped`, `rows_at_offsets`, `nonempty_calls_builder`: a sorted edge list on which `hatch` with a regular
 pattern of interval 1 returns and records the row `y = 1`, whose single segment is `(0, 2)`; the
 abscissa `x = 1` is not a crossing, is crossed-left once (odd) and lies inside the segment. -/
 example : exEdges.Pairwise (fun e f => e.a.y ≤ f.a.y) ∧
@@ -450,12 +475,12 @@ example : exEdges.Pairwise (fun e f => e.a.y ≤ f.a.y) ∧
     initSt, sortActive, isort, insertBy, lineLoop, solveX, Seg.x, Seg.solveTForY, updateSweep,
     cmpPos, mkSeg, tangentOf, sc_beq, sc_max, spanCount, crossingsLeft, List.filter, h1]
 
-/-- hypothesis `c² + s² = 1` of `row_perpendicular` / `rot_inverse` / `dot_on_segment`: the
-identity and a proper rotation -/
+/-- hypothesis `c² + s² = 1` of `row_perpendicular` / `rot_inverse`: the identity and a proper
+rotation -/
 example : exCfg.ci * exCfg.ci + exCfg.si * exCfg.si = 1 := by norm_num [exCfg]
 example : ((3:ℚ)/5) * (3/5) + (4/5) * (4/5) = 1 := by norm_num
 
-/-- hypotheses of `dots_in_segment` / `dot_on_segment`: `RegularDotPattern` with column interval
+/-- hypotheses of `dots_in_segment` / `dot_position_between` / `dot_on_segment`: `RegularDotPattern` with column interval
 1/2 on the segment `(0, 2)` of row `y = 1` yields (among others) a dot at `u = 1/2` -/
 example : (0:ℚ) ≤ (regularDots (1/2 : ℚ) 1).firstCol 0 ∧
     (∀ d ∈ (regularDots (1/2 : ℚ) 1).align 0, (0:ℚ) < d) ∧
